@@ -1583,7 +1583,16 @@ func (p *parser) parseOperand() (*a.Expr, error) {
 	}
 	lhs := a.NewExpr(0, 0, id, nil, nil, nil, nil)
 
-	for first := true; ; first = false {
+	// The chain of calls, indexes, slices and selectors that follows an
+	// identifier is parsed by this loop, not by recursion, but it builds a tree
+	// that is as deep as the chain is long. Bound its length too, so that the
+	// recursive passes over the resulting expression (ast.Node.Walk, Expr.Str,
+	// the type and bounds checkers, the code generators) don't overflow the
+	// stack.
+	for first, chainLength := true, uint32(0); ; first, chainLength = false, chainLength+1 {
+		if chainLength > a.MaxExprDepth {
+			return nil, p.errTooDeep("expression")
+		}
 		flags := a.Flags(0)
 		switch p.peek1() {
 		default:
